@@ -1462,6 +1462,18 @@ package trzsz
 //@       wlen[old(filter.serverIn)] == old(wlen)[old(filter.serverIn)] + len(buf) && \
 //@       (forall k int {wlog[old(filter.serverIn)][k]} :: old(wlen)[old(filter.serverIn)] <= k && k < wlen[old(filter.serverIn)] ==> \
 //@           wlog[old(filter.serverIn)][k] == old(buf[k - old(wlen)[old(filter.serverIn)]]))
+//@   # C19: typed input flows again as soon as the zmodem session says it is over (stopped and cleaned);
+//@   # the session is asked to stop only by a Ctrl-C that came alone in its chunk
+//@   ensures [C19] result_of("atomic.Pointer.Load[io.PipeWriter]", 0, 0) == nil && \
+//@       result_of("atomic.Pointer.Load[github.com/trzsz/trzsz-go/trzsz.trzszTransfer]", 0, 0) == nil && \
+//@       old(filter.options.EnableZmodem) && \
+//@       result_of("atomic.Pointer.Load[github.com/trzsz/trzsz-go/trzsz.zmodemTransfer]", 0, 0) != nil && \
+//@       !(len(buf) == 1 && old(buf[0]) == 3) && !result_of("zmodemTransfer.isTransferringFiles", 0, 0) && \
+//@       !result_of("atomic.Bool.Load", 0, 0) && result_of("writeAll", 0, 0) == nil ==> \
+//@       wlen[old(filter.serverIn)] == old(wlen)[old(filter.serverIn)] + len(buf) && \
+//@       (forall k int {wlog[old(filter.serverIn)][k]} :: old(wlen)[old(filter.serverIn)] <= k && k < wlen[old(filter.serverIn)] ==> \
+//@           wlog[old(filter.serverIn)][k] == old(buf[k - old(wlen)[old(filter.serverIn)]]))
+//@   before zmodemTransfer.stopTransferringFiles assert [C19] len(buf) == 1 && buf[0] == 3
 //@ end
 
 //@ func TrzszFilter.resetDragFiles
@@ -1527,6 +1539,20 @@ package trzsz
 //@       dst == filter.clientOut && same(data, buffer[0:n]) && n == result_of("io.Reader.Read", 0, 0))
 //@   before writeAll#0 assert [C05] same(result_of("traceLogger.writeTraceLog", 0, 0), buffer[0:n]) ==> \
 //@       dst == filter.clientOut && same(data, buffer[0:n])
+//@   # C19: the session is asked about every chunk while it exists; it is dropped - exactly that session, by
+//@   # compare-and-swap - as soon as it declines a chunk (and that chunk then takes the normal path); a new
+//@   # session is entered, and its helper started, only for a chunk detectZmodem accepted and only if the
+//@   # session slot was empty
+//@   before zmodemTransfer.handleServerOutput assert [C19] z == result_of("atomic.Pointer.Load[github.com/trzsz/trzsz-go/trzsz.zmodemTransfer]", 0, 0) && z != nil
+//@   before atomic.Pointer.CompareAndSwap[github.com/trzsz/trzsz-go/trzsz.zmodemTransfer]#0 assert [C19] \
+//@       !result_of("zmodemTransfer.handleServerOutput", 0, 0) && p1 == nil && \
+//@       p0 == result_of("atomic.Pointer.Load[github.com/trzsz/trzsz-go/trzsz.zmodemTransfer]", 0, 0)
+//@   before atomic.Pointer.CompareAndSwap[github.com/trzsz/trzsz-go/trzsz.zmodemTransfer]#1 assert [C19] \
+//@       p0 == nil && p1 == result_of("detectZmodem", 0, 0) && p1 != nil
+//@   before go:zmodemTransfer.handleZmodemEvent assert [C19] \
+//@       result_of("atomic.Pointer.CompareAndSwap[github.com/trzsz/trzsz-go/trzsz.zmodemTransfer]", 1, 0)
+//@   before go:zmodemTransfer.handleZmodemEvent assert [C19] zmodem == result_of("detectZmodem", 0, 0)
+//@   before go:zmodemTransfer.handleZmodemEvent assert [C19] zmodem != nil
 //@ end
 
 //@ # the input pump hands every chunk it read, whole and as read, to sendInput, and closes the server's
@@ -1580,6 +1606,15 @@ package trzsz
 //@ # a pause ends in success only if the stop flags were clear when last looked at
 //@ func trzszTransfer.checkStopAndPause
 //@   ensures [C10] r0 == nil ==> result_of("trzszTransfer.checkStop", 0, 0) == nil || result_of("trzszTransfer.checkStop", 1, 0) == nil
+//@   # C18: while the pause flag is up the only thing written is the keep-alive line "#<type>:=" + newline
+//@   # (never data), and the call returns success only after the flag was last seen down
+//@   ghostvar lastPause bool = false
+//@   after atomic.Bool.Load set lastPause = r0
+//@   before fmt.Sprintf assert [C18] lastPause && p0 == "#%s:=%s" && len(p1) == 2 && asString(p1[0]) == typ && \
+//@       asString(p1[1]) == t.transferConfig.Newline
+//@   before trzszTransfer.writeAll assert [C18] lastPause && (forall k int {p0[k]} :: 0 <= k && k < len(p0) ==> p0[k] == result_of("fmt.Sprintf", 0, 0)[k]) && \
+//@       len(p0) == len(result_of("fmt.Sprintf", 0, 0))
+//@   ensures [C18] r0 == nil && old(t.transferConfig.Protocol) >= 3 ==> !lastPause
 //@ end
 
 //@ # the first stop request wins: the delete choice is recorded only by the call whose compare-and-swap
@@ -1677,6 +1712,13 @@ package trzsz
 //@ # reports as written equals the announced size (and that step was just acknowledged to the sender).
 //@ func trzszTransfer.pipelineSendAck$1
 //@   before send:ctx.succ assert [C02] step == size && result_of("trzszTransfer.sendInteger", 0, 0) == nil
+//@   # C18: every acknowledgement line is written only right after the pause gate let it through
+//@   ghostvar gate bool = false
+//@   after trzszTransfer.checkStopAndPause set gate = r0 == nil
+//@   after trzszTransfer.writeAll set gate = false
+//@   after trzszTransfer.sendInteger set gate = false
+//@   before trzszTransfer.writeAll assert [C18] gate
+//@   before trzszTransfer.sendInteger assert [C18] gate
 //@ end
 
 //@ # Success of the pipelined sender is signalled only when the receiver acknowledged exactly the
@@ -1772,11 +1814,34 @@ package trzsz
 //@ # C02 (pipelined protocols): the same typed-line check - a line is accepted only if its type field is
 //@ # exactly the expected one, and the payload handed on is everything behind the first colon of that line
 //@ func trzszTransfer.recvCheckV2
+//@   requires t.buffer != nil && tbWF(t.buffer)
 //@   ensures [C02] r3 == nil ==> result_of("bytes.IndexByte", 0, 0) == len(expectType) + 1 && \
 //@       (forall k int {expectType[k]} :: 0 <= k && k < len(expectType) ==> result_of("trzszTransfer.recvLine", 0, 0)[1 + k] == expectType[k])
 //@   ensures [C02] r3 == nil ==> ref(r0) == ref(result_of("trzszTransfer.recvLine", 0, 0)) && \
 //@       off(r0) == off(result_of("trzszTransfer.recvLine", 0, 0)) + result_of("bytes.IndexByte", 0, 0) + 1 && \
 //@       len(r0) == len(result_of("trzszTransfer.recvLine", 0, 0)) - result_of("bytes.IndexByte", 0, 0) - 1
+//@   # C18: a keep-alive line ("=" alone) is never handed up as payload under protocol 3+; a read that timed
+//@   # out while a pause began after the wait started is retried, not reported; a pause that was waited out
+//@   # (or a keep-alive that was skipped) is reported to the caller, which suspends its chunk-time statistics
+//@   ensures [C18] r3 == nil && old(t.transferConfig.Protocol) >= 3 ==> !(len(r0) == 1 && r0[0] == 61)
+//@   ghostvar idxBefore int = 0
+//@   ghostvar idxAfter int = 0
+//@   after atomic.Uint32.Load#0 set idxBefore = r0
+//@   after atomic.Uint32.Load#1 set idxAfter = r0
+//@   ghostvar fromLine bool = false
+//@   after trzszTransfer.recvLine set fromLine = true
+//@   after trzszTransfer.checkStop set fromLine = false
+//@   ensures [C18] fromLine && r3 == boxOf(errReceiveDataTimeout) && old(t.transferConfig.Protocol) >= 3 ==> !(idxBefore < idxAfter)
+//@   ghostvar sawPause bool = false
+//@   after atomic.Bool.Load set sawPause = sawPause || r0
+//@   ensures [C18] sawPause ==> r2
+//@   loop 1
+//@     invariant [C18] sawPause ==> pause
+//@     invariant t.buffer != nil && tbWF(t.buffer) && t.transferConfig.Protocol == old(t.transferConfig.Protocol)
+//@   loop 2
+//@     invariant [C18] sawPause ==> pause
+//@     invariant t.buffer != nil && tbWF(t.buffer) && t.transferConfig.Protocol == old(t.transferConfig.Protocol)
+//@     invariant [C18] old(t.transferConfig.Protocol) >= 3 ==> idxBefore == pauseIdx
 //@ end
 
 //@ # C06: what the servers print is the trigger the detector's grammar expects: marker, mode letter,
@@ -1844,6 +1909,11 @@ package trzsz
 //@   before context.Context.Err#1 assert [C02] result_of("trzszTransfer.pipelineRecvCurrentAck", 0, 3) == nil && \
 //@       result_of("trzszTransfer.pipelineRecvCurrentAck", 0, 0) == sent
 //@   before trzszTransfer.pipelineRecvFinalAck assert [C02] result_of("context.Context.Err", 0, 0) == nil
+//@   # C18: in an iteration whose acknowledgement reported a pause the chunk-time statistics (and the
+//@   # buffer-size adaptation driven by them) are left alone - unless the size-probing phase is still on
+//@   before trzszTransfer.setLastChunkTime assert [C18] !result_of("trzszTransfer.pipelineRecvCurrentAck", 0, 2) || \
+//@       result_of("atomic.Bool.Load", 0, 0)
+//@   before time.Since assert [C18] !result_of("trzszTransfer.pipelineRecvCurrentAck", 0, 2) || result_of("atomic.Bool.Load", 0, 0)
 //@ end
 
 //@ # The sending stage of the pipelined sender.  deliver: the record queued for the acknowledgement stage
@@ -1989,4 +2059,174 @@ package trzsz
 //@   after recv:md5DigestChan set dref = ref(r0)
 //@   ensures [C02] succ ==> len(r0) > 0 ==> ref(r0) == dref
 //@   ensures [C02] !succ ==> len(r0) == 0
+//@ end
+
+//@ # C05 (last clause): once the wrapped command was waited for, what TrzszMain returns is the exit code the
+//@ # pty reports for it - read after the wait, returned unchanged.
+//@ func TrzszMain
+//@   ghostvar waited bool = false
+//@   ghostvar code int = 0
+//@   after trzszPty.Wait set waited = true
+//@   after trzszPty.ExitCode set code = r0
+//@   before trzszPty.ExitCode assert [C05] waited
+//@   ensures [C05] waited ==> r0 == code
+//@ end
+
+// ===========================================================================
+// C19  a zmodem session always ends by handing the terminal back  (sequential kernel)
+// ===========================================================================
+
+//@ # A session is started only for output that matches the start header and carries neither the cancel
+//@ # sequence nor a "cannot open" message - each searched for in the whole chunk; the direction is what the
+//@ # header's type digit says.
+//@ func detectZmodem
+//@   before regexp.Regexp.FindSubmatch assert [C19] recv == zmodemInitRegexp && same(p0, buf)
+//@   before bytes.Contains#0 assert [C19] same(p0, buf) && same(p1, zmodemCancelSubSequence)
+//@   before bytes.Contains#1 assert [C19] same(p0, buf) && same(p1, zmodemCanNotOpenFile)
+//@   ensures [C19] r0 != nil ==> len(result_of("regexp.Regexp.FindSubmatch", 0, 0)) >= 2 && \
+//@       !result_of("bytes.Contains", 0, 0) && !result_of("bytes.Contains", 1, 0)
+//@   ensures [C19] r0 != nil ==> r0.upload == (result_of("regexp.Regexp.FindSubmatch", 0, 0)[1][0] == 49)
+//@ end
+
+//@ # Remote output is claimed by the session unless (a) the session is stopped AND cleaned, or (b) no helper
+//@ # runs yet and the chunk carries a cancel sequence / "cannot open" - then the session marks itself
+//@ # stopped and cleaned.  While stopped but not yet cleaned every chunk re-arms the clean-up timer (so the
+//@ # session is dropped once the remote side has been quiet for the timer's period).
+//@ func zmodemTransfer.handleServerOutput
+//@   ghostvar armed bool = false
+//@   after zmodemTransfer.resetCleanupTimer set armed = true
+//@   ghostvar markedStopped bool = false
+//@   ghostvar markedCleaned bool = false
+//@   after atomic.Bool.Store#0 set markedCleaned = p0
+//@   after atomic.Bool.Store#1 set markedStopped = p0
+//@   before atomic.Bool.Store#0 assert [C19] recv == z.cleaned && p0
+//@   before atomic.Bool.Store#1 assert [C19] recv == z.stopped && p0
+//@   before atomic.Bool.Load#0 assert [C19] recv == z.stopped
+//@   before atomic.Bool.Load#1 assert [C19] recv == z.cleaned
+//@   ensures [C19] result_of("atomic.Bool.Load", 0, 0) ==> (r0 == !result_of("atomic.Bool.Load", 1, 0)) && (r0 ==> armed)
+//@   ensures [C19] !result_of("atomic.Bool.Load", 0, 0) && !r0 ==> markedStopped && markedCleaned && \
+//@       (result_of("bytes.Contains", 0, 0) || result_of("bytes.Contains", 1, 0))
+//@ end
+
+//@ # The first error (or stop request) wins: everything below happens only in the call whose compare-and-swap
+//@ # turned "stopped" on - the full cancel sequence goes to the server, and to the helper too if one runs
+//@ # (which is then made to exit); later calls do nothing.
+//@ func zmodemTransfer.handleZmodemError
+//@   before atomic.Bool.CompareAndSwap assert [C19] recv == z.stopped && !p0 && p1
+//@   before writeAll#0 assert [C19] result_of("atomic.Bool.CompareAndSwap", 0, 0) && p0 == z.serverIn && same(p1, zmodemCancelFullSequence)
+//@   before writeAll#1 assert [C19] result_of("atomic.Bool.CompareAndSwap", 0, 0) && p0 == z.stdin && same(p1, zmodemCancelFullSequence)
+//@   before zmodemTransfer.ensureClientExit assert [C19] p0 != nil && p0 == result_of("atomic.Pointer.Load[os/exec.Cmd]", 0, 0)
+//@   ghostvar cancelled bool = false
+//@   after writeAll#0 set cancelled = true
+//@   ensures [C19] result_of("atomic.Bool.CompareAndSwap", 0, 0) ==> cancelled
+//@ end
+
+//@ # When the helper has exited the session is marked stopped, the clean-up timer is armed and the server is
+//@ # sent the full cancel sequence (in case it is still waiting).
+//@ func zmodemTransfer.checkClientExited
+//@   ghostvar waited bool = false
+//@   after exec.Cmd.Wait set waited = true
+//@   ghostvar stoppedSet bool = false
+//@   after atomic.Bool.Store set stoppedSet = p0
+//@   ghostvar armed bool = false
+//@   after zmodemTransfer.resetCleanupTimer set armed = true
+//@   ghostvar cancelSent bool = false
+//@   after writeAll set cancelSent = true
+//@   before atomic.Bool.Store assert [C19] waited && recv == z.stopped && p0
+//@   before writeAll assert [C19] armed && p0 == z.serverIn && same(p1, zmodemCancelFullSequence)
+//@   ensures [C19] waited && stoppedSet && armed && cancelSent
+//@ end
+
+//@ # A session whose server side failed at once is not pursued; a failure to choose files / a directory or
+//@ # to start the helper goes to handleZmodemError (which cancels the server side).
+//@ func zmodemTransfer.handleZmodemEvent
+//@   ghostvar failed bool = false
+//@   ghostvar reported bool = false
+//@   after dynamic:chooseUploadFiles set failed = failed || r1 != nil
+//@   after dynamic:chooseDownloadPath set failed = failed || r1 != nil
+//@   after zmodemTransfer.handleZmodemError set reported = true
+//@   ensures [C19] failed ==> reported
+//@   before dynamic:chooseUploadFiles assert [C19] z.upload && !result_of("atomic.Bool.Load", 0, 0)
+//@   before dynamic:chooseDownloadPath assert [C19] !z.upload && !result_of("atomic.Bool.Load", 0, 0)
+//@   before zmodemTransfer.uploadFiles assert [C19] !failed && result_of("dynamic:chooseUploadFiles", 0, 1) == nil
+//@   before zmodemTransfer.downloadFiles assert [C19] !failed && result_of("dynamic:chooseDownloadPath", 0, 1) == nil
+//@ end
+//@ func zmodemTransfer.uploadFiles
+//@   ghostvar failed bool = false
+//@   ghostvar reported bool = false
+//@   after zmodemTransfer.launchZmodemCmd set failed = r1 != nil
+//@   after zmodemTransfer.handleZmodemError set reported = true
+//@   ensures [C19] failed ==> reported
+//@   before zmodemTransfer.handleZmodemStream assert [C19] !failed && p0 == result_of("zmodemTransfer.launchZmodemCmd", 0, 0)
+//@ end
+//@ func zmodemTransfer.downloadFiles
+//@   ghostvar failed bool = false
+//@   ghostvar reported bool = false
+//@   after zmodemTransfer.launchZmodemCmd set failed = r1 != nil
+//@   after zmodemTransfer.handleZmodemError set reported = true
+//@   ensures [C19] failed ==> reported
+//@   before zmodemTransfer.handleZmodemStream assert [C19] !failed && p0 == result_of("zmodemTransfer.launchZmodemCmd", 0, 0)
+//@ end
+
+//@ # The session counts as over exactly when it is stopped AND cleaned (as read by this call).
+//@ func zmodemTransfer.isTransferringFiles
+//@   before atomic.Bool.Load#0 assert [C19] recv == z.stopped
+//@   before atomic.Bool.Load#1 assert [C19] recv == z.cleaned
+//@   ensures [C19] !r0 ==> result_of("atomic.Bool.Load", 0, 0) && result_of("atomic.Bool.Load", 1, 0)
+//@   ensures [C19] r0 ==> !result_of("atomic.Bool.Load", 0, 0) || !result_of("atomic.Bool.Load", 1, 0)
+//@ end
+//@ # what the clean-up timer does when it fires: mark the session cleaned, then nudge the remote shell
+//@ func zmodemTransfer.resetCleanupTimer$1
+//@   before atomic.Bool.Store assert [C19] recv == z.cleaned && p0
+//@   ghostvar cleanedSet bool = false
+//@   after atomic.Bool.Store set cleanedSet = true
+//@   ensures [C19] cleanedSet
+//@ end
+//@ # a new timer is armed on every call (the previous one, if any, is stopped first): half a second
+//@ func zmodemTransfer.resetCleanupTimer
+//@   before time.AfterFunc assert [C19] p0 == 500000000
+//@   ghostvar armed bool = false
+//@   after time.AfterFunc set armed = true
+//@   ensures [C19] armed && z.cleanupTimer == result_of("time.AfterFunc", 0, 0)
+//@ end
+//@ # The bridge from the helper to the server: a failed write to the server or a failed read from the helper
+//@ # is reported (cancel sequence, see handleZmodemError), and however the loop ends the helper is made to exit.
+//@ func zmodemTransfer.handleZmodemStream
+//@   ghostvar wfailed bool = false
+//@   ghostvar reported bool = false
+//@   after writeAll set wfailed = wfailed || r0 != nil
+//@   after zmodemTransfer.handleZmodemError set reported = true
+//@   ghostvar killed bool = false
+//@   after zmodemTransfer.ensureClientExit set killed = true
+//@   loop 1
+//@     invariant [C19] !wfailed
+//@   ensures [C19] killed && (wfailed ==> reported)
+//@   before zmodemTransfer.ensureClientExit assert [C19] p0 == cmd
+//@ end
+
+// ===========================================================================
+// C18  pausing and resuming  (sequential kernel; see also checkStopAndPause, recvCheckV2,
+//      pipelineSendAck$1, pipelineRecvAck$1 above)
+// ===========================================================================
+
+//@ # file data goes out only right after the pause gate let it through
+//@ func trzszTransfer.sendDataV2
+//@   before trzszTransfer.writeAll assert [C18] result_of("trzszTransfer.checkStopAndPause", 0, 0) == nil
+//@   ensures [C18] result_of("trzszTransfer.checkStopAndPause", 0, 0) != nil ==> r1 != nil
+//@ end
+//@ # a pause raises the flag first; the pause counter advances only when a pause begins (not when the
+//@ # question is asked again during the same pause)
+//@ func trzszTransfer.pauseTransferringFiles
+//@   before atomic.Bool.Store assert [C18] recv == t.pausing && p0
+//@   before atomic.Uint32.Add assert [C18] recv == t.pauseIdx && p0 == 1 && result_of("atomic.Int64.Load", 0, 0) == 0
+//@ end
+//@ # a resume lowers the flag last: the resume time is recorded, the pause start cleared and the blocked
+//@ # reader given a fresh timeout before any stage can see the flag down
+//@ func trzszTransfer.resumeTransferringFiles
+//@   ghostvar resumeSet bool = false
+//@   ghostvar renewed bool = false
+//@   after atomic.Pointer.Store[time.Time] set resumeSet = true
+//@   after trzszBuffer.setNewTimeout set renewed = true
+//@   before atomic.Bool.Store assert [C18] recv == t.pausing && !p0 && resumeSet && renewed
+//@   before atomic.Int64.Store assert [C18] recv == t.pauseBeginTime && p0 == 0
 //@ end
